@@ -1,0 +1,34 @@
+//go:build verif
+
+// Contracts for govc (see /verif/DESIGN.md). Comment-only: no executable code with or without the tag.
+
+package core
+
+//@ import pb "github.com/refraction-networking/conjure/proto"
+
+// C01: station and client derive the ConjureSeed from the same HKDF stream - same secret, same salt
+// "conjureconjureconjureconjure", empty info - at the published offset: clients older than the shared-keys refactor
+// (library version < 4) first draw 104 bytes of (now unused) key material, so for them the seed is bytes [104, 120);
+// from version 4 on it is bytes [0, 16). What follows the seed in the stream is handed to the transports on both sides
+// (TransportReader / Reader positioned right behind the seed).
+//@ func GenSharedKeys(clientLibVer uint, sharedSecret []byte, tt pb.TransportType) (ConjureSharedKeys, error)
+//@   let skip := ite(clientLibVer < 4, 104, 0)
+//@   ensures @C01: result1 == nil ==> len(result0.ConjureSeed) == 16 && string(result0.ConjureSeed) == streamBytes(hkdfStream(old(string(sharedSecret)), "conjureconjureconjureconjure", ""), skip, 16)
+//@   ensures @C01: result1 == nil ==> result0.TransportReader != nil && streamOf(result0.TransportReader) == hkdfStream(old(string(sharedSecret)), "conjureconjureconjureconjure", "") && drawn(result0.TransportReader) == skip + 16
+//@   ensures @C01: result0.SharedSecret == sharedSecret
+
+//@ func generateEligatorTransformedKey(publicKey []byte) ([]byte, []byte, error)
+//@   assigns nothing
+//@   trusted
+
+// The client's salt is the package variable conjureGeneralHkdfSalt (initialiser []byte("conjureconjureconjureconjure"),
+// never assigned in the module - ASSUMED, not proved: package initialisers are outside the engine's reach); the
+// clause below is stated over the bytes that variable holds when the stream is created.
+//@ func GenerateClientSharedKeys(pubkey [32]byte) (*SharedKeys, error)
+//@   atcall hkdf.New before: assert @C01: arg2 == conjureGeneralHkdfSalt && len(arg3) == 0
+//@   atcall hkdf.New before: snap secretStr := string(arg1)
+//@   atcall hkdf.New before: snap saltStr := string(arg2)
+//@   atcall hkdf.New before: snap secretSlice := arg1
+//@   atcall Read#1 after: assert @C01: res1 == nil ==> keys.SharedSecret == secretSlice && keys.Reader == cjHkdf && len(keys.ConjureSeed) == 16 && string(keys.ConjureSeed) == streamBytes(hkdfStream(secretStr, saltStr, ""), 0, 16) && streamOf(cjHkdf) == hkdfStream(secretStr, saltStr, "") && drawn(cjHkdf) == 16
+//@   atcall Read#1 after: snap drew := true
+//@   ensures @C01: result1 == nil ==> result0 != nil && defined(drew)
